@@ -108,3 +108,22 @@ func verifHarnessVarPoolTwoRuns(k int, maxLen int) {
 	}
 	verifReach("end")
 }
+
+// verifHarnessVarPoolConcrete runs a concrete history; the interpreter and the
+// native build must agree on every output (translator validation).
+func verifHarnessVarPoolConcrete(ops []int, names []string) []string {
+	p := NewVarPool()
+	var outs []string
+	for i, op := range ops {
+		switch op {
+		case 0:
+			p.Reserve(names[i])
+			outs = append(outs, "-")
+		case 1:
+			outs = append(outs, p.GetName(names[i]))
+		default:
+			outs = append(outs, p.GetChannel(verifMakeType(names[i])))
+		}
+	}
+	return outs
+}
